@@ -182,3 +182,50 @@ Example ex_purge_hypothesis_needed :
   cache s1 = [((1, p), [6%Z])] /\
   snd (calc (S f) sy pp {| cache := []; stack := []; invalid := [] |} 1 p) = Ok [2%Z].
 Proof. vm_compute. repeat split. Qed.
+
+(** * Sentence 2 for ordinary periods: the purge hypothesis discharged.
+
+    [ordinary q] (proofs/EngineC02Ordinary.v, decidable): dated unit, valid start, size 1,
+    and a start day <= 28 when the unit is month or year (no end-of-month clipping).
+    [ordinary_keys sy s]: every mark and every stored key of [s] belongs to an existing
+    variable, has that variable's unit and an ordinary period. *)
+From Verif Require Import EngineC02Ordinary.
+
+(** Among ordinary periods of one unit, a period contains only itself
+    (calendar facts from proofs/PeriodProofs.v). *)
+Theorem ordinary_period_contains_only_itself : forall p q,
+  ordinary p = true -> ordinary q = true -> p_unit p = p_unit q -> contains p q = true -> p = q.
+Proof. exact ordinary_contains_eq. Qed.
+Print Assumptions ordinary_period_contains_only_itself.
+
+(** [retained_values_justified] with the abstract purge hypothesis replaced by: the marks
+    and stored keys just before the purge are ordinary. *)
+Theorem retained_values_justified_ordinary : forall sy pp f s0 v p,
+  forallb (fun x => negb (unit_eqb (v_unit x) Eternity)) (vars sy) = true ->
+  stack s0 = [] -> invalid s0 = [] ->
+  let se := pop (fst (calc_body (calc f sy pp) sy pp (push (v, p) s0) v p)) in
+  ordinary_keys sy se = true ->
+  let s1 := fst (calc (S f) sy pp s0 v p) in
+  forall k a, lookup k (cache s1) = Some a -> lookup k (cache s0) <> Some a ->
+  exists W : list (key * val),
+    (forall k' a', lookup k' W = Some a' -> k' <> k /\ lookup k' (cache s1) = Some a') /\
+    snd (calc (S f) sy pp {| cache := W; stack := []; invalid := [] |} (fst k) (snd k)) = Ok a.
+Proof. exact retained_justified_ordinary. Qed.
+Print Assumptions retained_values_justified_ordinary.
+
+(** Non-vacuity: the system of [ex_retained_justified] (first-of-month periods). *)
+Example ex_ordinary_keys :
+  let mv e := mk_var EPerson TInt Month None [((1, 1, 1)%Z, e)] 0%Z false false in
+  let sy := {| vars := [ mv (EBin BAdd (EDep 1 PLastMonth OPlain) (EConst 1));
+                         mv (EBin BAdd (EDep 0 PSame OPlain) (EConst 1));
+                         mv (EBin BMul (EConst 10) (EDep 0 PSame OPlain));
+                         mv (EDep 1 PSame OPlain);
+                         mv (EBin BAdd (EDep 3 PSame OPlain) (EDep 2 PSame OPlain)) ];
+               params := []; switches := []; max_loops := 1 |} in
+  let pp := {| grp := {| Group.g_entity := {| Group.e_key := EmptyString; Group.e_roles := []; Group.e_containing := [] |};
+                         Group.g_count := 1; Group.g_ids := [0]; Group.g_roles := [0] |} |} in
+  let p : period := (Month, (2018, 3, 1)%Z, 1%Z) in
+  let f := (max_loops sy + 2) * List.length (vars sy) in
+  let se := pop (fst (calc_body (calc f sy pp) sy pp (push (4, p) (init [])) 4 p)) in
+  ordinary_keys sy se = true /\ List.length (invalid se) = 6 /\ List.length (cache se) = 5.
+Proof. vm_compute. repeat split. Qed.
